@@ -141,19 +141,30 @@ def effDry (cmd : Cmd) (dry : Bool) : Bool :=
   | .search => Gen.DryRunGates.searchPassesDryRunTrue || dry
   | _ => dry
 
-/-- does a statement of this kind run? (it exists in the operation and the dry-run gate does not skip it) -/
-def runsK (cmd : Cmd) (dry : Bool) (k : Gen.DryRunGates.Kind) : Bool :=
-  Gen.DryRunGates.gates.any (fun g => g.op == opOf cmd && g.kind == k && !(g.skippedByDryRun && effDry cmd dry))
+/-- does a statement of this kind run under gate table `gs`? (it exists in the operation and the dry-run gate does
+    not skip it) -/
+def runsKG (gs : List Gen.DryRunGates.Gate) (cmd : Cmd) (dry : Bool) (k : Gen.DryRunGates.Kind) : Bool :=
+  gs.any (fun g => g.op == opOf cmd && g.kind == k && !(g.skippedByDryRun && effDry cmd dry))
 
-def runs (c : Cfg) (k : Gen.DryRunGates.Kind) : Bool := runsK c.cmd c.dryRun k
+/-- … under the generated table -/
+def runsK (cmd : Cmd) (dry : Bool) (k : Gen.DryRunGates.Kind) : Bool := runsKG Gen.DryRunGates.gates cmd dry k
 
-def program (c : Cfg) : List FsOp :=
+def programG (gs : List Gen.DryRunGates.Gate) (c : Cfg) : List FsOp :=
   (if c.autoInit then [.openw .ignoreTmp, .write .ignoreTmp, .rename .ignoreTmp .ignoreFile] else []) ++
-  (if runs c .lock then (if c.renamifyExists then [] else [.mkdir .renamifyDir]) ++ [.openw .lock, .write .lock] else []) ++
+  (if runsKG gs c.cmd c.dryRun .lock then
+     (if c.renamifyExists then [] else [.mkdir .renamifyDir]) ++ [.openw .lock, .write .lock] else []) ++
   (if c.probe && c.cmd != .replace then
      [.mkdir .probeDir, .openw .probeFile, .write .probeFile, .unlink .probeFile, .rmdir .probeDir] else []) ++
-  (if runs c .planWrite then [.openw .planFile, .write .planFile] else []) ++
-  (if runs c .lock then [.unlink .lock] else [])
+  (if runsKG gs c.cmd c.dryRun .planWrite then [.openw .planFile, .write .planFile] else []) ++
+  (if runsKG gs c.cmd c.dryRun .lock then [.unlink .lock] else [])
+
+/-- the program of a command, following the gate table generated from the source -/
+def program (c : Cfg) : List FsOp := programG Gen.DryRunGates.gates c
+
+/-- the rename gates as they were before commit 055e350 (lock taken before the dry-run gate) -/
+def oldRenameGates : List Gen.DryRunGates.Gate :=
+  [ { op := .rename, kind := .lock, skippedByDryRun := false, line := 0 },
+    { op := .rename, kind := .apply, skippedByDryRun := true, line := 0 } ]
 
 /-- the writes the property permits: the plan file (with its directory and the transient lock) when it is not a
     dry run; the transient probe directory; the ignore file when auto-init adds its line -/
